@@ -68,7 +68,16 @@ pub const ASSUMPTIONS: &[&str] = &[
 ];
 
 pub fn spaces_c01(tier: &str, _seed: u64) -> Vec<Box<dyn Space>> {
-    sweep_spaces(Judge::C01, tier)
+    let mut v = sweep_spaces(Judge::C01, tier);
+    // "whenever a solve ends Solved" includes solves after in-place data updates: the update histories of
+    // C08, whose closing solve is judged by the C01 oracle on the final data, belong to this property too
+    let maxd = if tier == "thorough" { 3 } else { 2 };
+    for base in 0..2 {
+        for depth in 1..=maxd {
+            v.push(Box::new(super::c08::Hist { depth, base, equil: true, presolve_active: false }));
+        }
+    }
+    v
 }
 pub fn spaces_c02(tier: &str, _seed: u64) -> Vec<Box<dyn Space>> {
     sweep_spaces(Judge::C02, tier)
